@@ -158,6 +158,12 @@ type client struct {
 	connM sync.Mutex
 	conn  net.Conn
 
+	// writeM serializes requests written to conn: batches are written by
+	// the processRPCs goroutine and unbatched rpcs by their callers, and a
+	// request with cellblocks may take several Write calls on connections
+	// that don't support writev (e.g. ones made by a custom dialer)
+	writeM sync.Mutex
+
 	// Address of the RegionServer.
 	addr  string
 	ctype ClientType
@@ -661,12 +667,14 @@ func (c *client) send(rpc hrpc.Call) (uint32, error) {
 	}
 
 	rpcSize.WithLabelValues(c.Addr()).Observe(float64(uint32(len(b)) + cellblocksLen))
+	c.writeM.Lock()
 	if cellblocks != nil {
 		bfs := append(net.Buffers{b}, cellblocks...)
 		_, err = bfs.WriteTo(c.conn)
 	} else {
 		err = c.write(b)
 	}
+	c.writeM.Unlock()
 	if err != nil {
 		return id, ServerError{err}
 	}
